@@ -549,6 +549,40 @@ def rule_R14(text, cfg, counts):
     return text
 
 
+
+def rule_R24(text, counts):
+    """continue elimination: inside a loop body, `if COND { continue; } REST` => `if !(COND) { REST }` (REST = the remaining statements
+    of the enclosing block, which must be the loop body itself). Definition of `continue`: skip the rest of this iteration."""
+    while True:
+        m_ = mask(text)
+        m = re.search(r"\bif\b([^{};]*)\{\s*continue\s*;\s*\}", m_)
+        if not m:
+            return text
+        cond = text[m.start(1):m.end(1)].strip()
+        # the enclosing block: walk outwards to the nearest unmatched `{`
+        depth = 0
+        k = m.start() - 1
+        while k >= 0:
+            if m_[k] == "}":
+                depth += 1
+            elif m_[k] == "{":
+                if depth == 0:
+                    break
+                depth -= 1
+            k -= 1
+        if k < 0:
+            raise AnchorLost("R24: `continue` outside a block")
+        c = match_close(m_, k)
+        rest = text[m.end():c]
+        text = text[:m.start()] + "if !(" + cond + ") {" + rest.rstrip() + "\n" + line_indent(text, m.start()) + "}\n" + line_indent(text, k) + text[c:]
+        counts["R24"] = counts.get("R24", 0) + 1
+
+
+def line_indent(text, pos):
+    ls = line_start(text, pos)
+    return re.match(r"[ \t]*", text[ls:]).group(0)
+
+
 def auto_rules(text, mode, counts):
     text = rule_R1(text, counts)
     text = rule_R1f(text, counts)
@@ -582,6 +616,7 @@ class Block:
         self.ret = None
         self.spec = []
         self.loops = {}
+        self.r24 = False
         self.inserts = []
         self.rewrites = []
         self.sigrewrites = []
@@ -707,6 +742,9 @@ def parse_template(tpl_text, base_dir=None, hashes=None):
         elif word == "r14":
             cur.r14 = parse_attrs(rest)
             target = None
+        elif word == "r24":
+            cur.r24 = True
+            target = None
         elif word in ("rewrite", "sigrewrite", "specrewrite"):
             m = re.match(r'(\S+)\s+"((?:[^"\\]|\\.)*)"\s*=>\s*"((?:[^"\\]|\\.)*)"\s*$', rest)
             if not m:
@@ -740,6 +778,8 @@ def weave_fn(it, blk, counts, rewrite_log):
         body = rule_R7(body, blk.r7, counts)
     if blk.r14:
         body = rule_R14(body, blk.r14, counts)
+    if blk.r24:
+        body = rule_R24(body, counts)
     if blk.attrs.get("rename"):
         sig = re.sub(r"\bfn\s+%s\b" % re.escape(it["name"]), "fn " + blk.attrs["rename"], sig, count=1)
     # name the return value
@@ -994,7 +1034,14 @@ def render(tpl_path, with_canaries=True):
                     find_item(val.attrs.get("file"), val.attrs.get("in"), val.attrs.get("item"))
                 except AnchorLost:
                     continue
-            text, canary, rec = process_block(val, records)
+            try:
+                text, canary, rec = process_block(val, records)
+            except AnchorLost as ex:
+                # an optional SLICE whose anchors are gone is skipped (reported in meta): another unit owns the whole function
+                if val.attrs.get("optional") and val.kind == "slice":
+                    meta.setdefault("skipped_optional", []).append("%s %s: %s" % (val.attrs.get("file"), val.attrs.get("item"), ex))
+                    continue
+                raise
             # indentation of the directive is not tracked; Verus does not care
             s, e = emit(text)
             rec["gen_lines"] = [s, e]
